@@ -260,9 +260,15 @@ def r04_6(prog, cfg):
 # ------------------------------------------------------------------------------------------ R04.2
 TABLE_FIELDS = {"elements", "value2enum", "enum2value", "tag2el", "tag2el_cxer", "from_canonical_order", "to_canonical_order",
                 "oms", "tags", "all_tags"}
+# which count fields measure which table (a bound taken from another table's count is the wrong bound)
+TABLE_COUNTS = {"elements": {"elements_count"}, "value2enum": {"map_count"}, "enum2value": {"map_count"},
+                "tag2el": {"tag2el_count"}, "tag2el_cxer": {"tag2el_cxer_count"},
+                "from_canonical_order": {"elements_count"}, "to_canonical_order": {"elements_count"},
+                "oms": {"roms_count", "aoms_count"}, "tags": {"tags_count"}, "all_tags": {"all_tags_count"}}
+ALL_COUNTS = set().union(*TABLE_COUNTS.values())
 
 
-def r04_2(prog, cfg):
+def r04_2(prog, cfg, rid="R04.2", slots=None, floor=None):
     """Every subscript of a descriptor table (td->elements, specs->value2enum, specs->oms, ...) in code reachable from a
     decoder, free or print slot, whose index is not a constant and not made of descriptor fields only, is reached only
     through the bounded edge of an upper-bound comparison of that index (loop condition, range test with a failing
@@ -270,9 +276,9 @@ def r04_2(prog, cfg):
     from ..model import strip_casts, is_var, tree_text, walk, const_of
     from . import common
     from .. import guards
-    r = Rule("R04.2", "descriptor tables are indexed only behind an upper-bound comparison of the index", floor=12 if cfg == "default" else 0)
+    r = Rule(rid, "descriptor tables are indexed only behind an upper-bound comparison of the index with that table's own count", floor=(12 if cfg == "default" else 0) if floor is None else floor)
     cg = prog.callgraph()
-    scope = cg.reachable(common.slot_functions(prog, common.DECODER_SLOTS + ["free_struct", "print_struct", "compare_struct"]))
+    scope = cg.reachable(common.slot_functions(prog, slots or (common.DECODER_SLOTS + ["free_struct", "print_struct", "compare_struct"])))
     exc = {(x["function"], x["key"]): x["reason"] for x in load_tables("c04").get("r04_2_exceptions", [])}
     for k in sorted(scope):
         f = prog.funcs[k]
@@ -289,6 +295,11 @@ def r04_2(prog, cfg):
             if ivars and all(x[2] == "param" and ("asn_TYPE_descriptor" in x[3] or "specifics" in x[3]) for x in ivars) and \
                     all(x[0] != "member" or True for x in walk(it)):
                 r.ok(f, "%s[%s]" % (tree_text(bt), tree_text(it)), "index is a function of the type descriptor only", e["line"], nontrivial=False)
+                continue
+            # an element number recorded in a tag map (t2m[edx].el_no): written by the compiler or by this encoder's own
+            # bounded loop, not by the structure being encoded
+            if any(x[0] == "member" and x[2] == "el_no" for x in walk(it)):
+                r.ok(f, "%s[%s]" % (tree_text(bt), tree_text(it)), "index is an element number stored in a tag-to-member map", e["line"], nontrivial=False)
                 continue
             # the subject: a local variable, or a member expression like selected.presence_index
             core = it
@@ -311,6 +322,7 @@ def r04_2(prog, cfg):
                         subj_keys.add(guards.canon(d0))
             # edges on which an upper bound of the subject is known to hold
             bounded = set()
+            wrong_bounds = []
             for tb in f.blocks.values():
                 if not tb.term or "cond" not in tb.term or len(tb.succ) < 2:
                     continue
@@ -319,9 +331,17 @@ def r04_2(prog, cfg):
                     continue
                 l, rr = strip_casts(c[2]), strip_casts(c[3])
                 op = c[1]
+                other = rr
                 if guards.canon(rr) in subj_keys and guards.canon(l) not in subj_keys:
                     op = {"<": ">", "<=": ">=", ">": "<", ">=": "<="}[op]
+                    other = l
                 elif guards.canon(l) not in subj_keys:
+                    continue
+                # the bound is a count field of the descriptor: it must be the count of the table being indexed
+                ocounts = {x[2] for x in walk(other) if x[0] == "member" and x[2] in ALL_COUNTS}
+                tfields = {x[2] for x in walk(bt) if x[0] == "member"} & TABLE_FIELDS
+                if ocounts and not (ocounts & set().union(*[TABLE_COUNTS[t_] for t_ in tfields])):
+                    wrong_bounds.append((tb.term.get("line"), sorted(ocounts)))
                     continue
                 bounded.add((tb.id, 0 if op in ("<", "<=") else 1))
             # definitions of the subject variable (entry for parameters and member subjects)
@@ -332,6 +352,8 @@ def r04_2(prog, cfg):
                 for db, di, de in f.events():
                     if (de["k"] == "assign" and de.get("base_id") == vid and not de.get("deref") and de.get("lhs") == de.get("base")) or \
                             (de["k"] == "decl" and de.get("id") == vid):
+                        if de["k"] == "assign" and (de.get("op") in ("--", "--post") or (de.get("op") == "-=" and (const_of(de["rhs"]["tree"]) or 0) > 0)):
+                            continue        # a decrement keeps whatever upper bound was established (`present--` after the range test)
                         dtree = (de.get("rhs") or de.get("init") or {}).get("tree")
                         dt0 = strip_casts(dtree) if dtree is not None else None
                         # value read out of a descriptor table (from_canonical_order[value]): fixed by the type
@@ -375,8 +397,12 @@ def r04_2(prog, cfg):
             elif (f.name, key) in exc:
                 r.exc(f, key, exc[(f.name, key)], e["line"])
             else:
-                r.bad(f, key, "`%s` indexes a descriptor table with `%s`, and no upper-bound comparison of that index guards the access on "
-                              "every path: a value taken from the input (or a corrupted structure) reads past the table" % (tree_text(bt), tree_text(it)), e["line"])
+                extra = ""
+                if wrong_bounds:
+                    extra = " (the comparison at line %s bounds it by %s, which measures a different table)" % (wrong_bounds[0][0], ", ".join(wrong_bounds[0][1]))
+                r.bad(f, key, "`%s` indexes a descriptor table with `%s`, and no upper-bound comparison of that index with the table's own count "
+                              "guards the access on every path%s: a value taken from the input (or an ill-formed structure) reads past the "
+                              "table" % (tree_text(bt), tree_text(it), extra), e["line"])
     for i in r.insts:
         i.config = cfg
     return r
